@@ -9,3 +9,21 @@ package httproto
 //@ func (*httproto).Unpack
 //@   property C15
 //@   requires msgOwnStatus(as(m, type(*socket.message)))
+
+// ---- C06: nothing is buffered beyond the per-message read limit ----------------
+// (ghost.maxAlloc: largest buffer length requested; the limit is socket.messageSizeLimit)
+//@ func (*httproto).readLine
+//@   property C06
+//@   flags libframe
+//@   requires bb != nil
+//@   modifies bb.B, ghost.maxAlloc
+//@   ensures[line-within-limit] ghost.maxAlloc <= old(ghost.maxAlloc) || ghost.maxAlloc <= socket.messageSizeLimit + 1
+//@   loop 0: invariant[line-within-limit] (ghost.maxAlloc <= old(ghost.maxAlloc) || ghost.maxAlloc <= socket.messageSizeLimit + 1) && len(bb.B) <= socket.messageSizeLimit && len(oneByte) == 1
+
+//@ func (*httproto).unpack
+//@   property C06
+//@   flags libframe
+//@   requires bb != nil && !h.printMessage
+//@   modifies bb.B, ghost.maxAlloc, msgUser(as(m, type(*socket.message))), as(m, type(*socket.message)).seq, as(m, type(*socket.message)).mtype, ghost.appendFailed
+//@   ensures[body-within-limit] ghost.maxAlloc <= old(ghost.maxAlloc) || ghost.maxAlloc <= socket.messageSizeLimit + 1
+//@   loop 0: invariant[within-limit] ghost.maxAlloc <= old(ghost.maxAlloc) || ghost.maxAlloc <= socket.messageSizeLimit + 1
